@@ -399,10 +399,20 @@ def searcher(ctx, cfg, b, counts):
         idxb = np.random.default_rng(cfg["seed"] + 7).integers(0, q, size=5000)
         Cbig = call(p, cfg, "covariance", Xq[idxb], True)
         counts["many_rows"] = counts.get("many_rows", 0) + 1
-        # two evaluation orders of the same triangular solves (XLA blocks 5000 rows differently from 5): the bound Dd covers the
-        # final subtraction only, so a margin of 1e-7 of the prior variance is added (support comparison; observed differences are
-        # below 1e-9, a row mix-up changes the value by O(variance))
-        tolb = 2 * (Dd + dkd)[idxb] + 64 * U * np.abs(Cd[idxb]) + (1e-7 + 64 * nb * U / j) * (np.abs(kd[idxb]) + 1.0)   # u / jitter: amplification of the solves
+        # Evaluated among 5000 rows, kernel entries are rounded under another blocking of |x|^2 - 2xy + |y|^2.  Derived bound (as
+        # kdiag_tol): the squared distance carries an absolute error 4(d+2)u(|x|^2+|y|^2), the distance that divided by itself
+        # (or its square root), the kernel klip times that; a perturbation dk of a column of K_b* moves the variance
+        # k** - |L^-1 k|^2 by at most dk** + 2 |a| |L^-1|_2 |dk| (+ its square); the solves themselves add u / jitter.
+        dq_ = Xq.shape[1]
+        x2b_, x2q_ = np.sum(xb * xb, axis=1)[:, None], np.sum(Xq * Xq, axis=1)[None, :]
+        sq_ = np.maximum(x2b_ + x2q_ - 2 * xb @ Xq.T, 0.0)
+        dsq_ = 4 * (dq_ + 2) * U * (x2b_ + x2q_)
+        ddist_ = np.minimum(dsq_ / np.sqrt(sq_ + 1e-12), np.sqrt(dsq_))
+        eK_ = klip(cfg) * ddist_ * (1 + np.abs(Kbq)) + 8 * (dq_ + 2) * U * (np.abs(Kbq) + (x2b_ + x2q_) / cfg["ls"] ** 2)
+        sminL_ = max(np.linalg.svd(L, compute_uv=False)[-1], 1e-300)
+        dk_ = cn(eK_) / sminL_
+        dvar_ = 2 * (kdiag_tol(cfg, Xq, kd) + 2 * cn(A) * dk_ + dk_ ** 2)
+        tolb = (2 * (Dd + dkd) + dvar_)[idxb] + 64 * U * np.abs(Cd[idxb]) + (1e-9 + 64 * nb * U / j) * (np.abs(kd[idxb]) + 1.0)
         if Cbig.shape != (5000,) or not (np.abs(Cbig - Cd[idxb]) <= tolb).all():
             viol("many-rows", "among 5000 query rows, a row's variance differs from the variance of the same row in a small batch",
                  {"rows": "Xnew[default_rng(seed + 7).integers(0, len(Xnew), 5000)]",
